@@ -164,6 +164,8 @@ impl World {
             note,
             kept: None,
             replay_of_wire: None,
+                    dgram_len: 0,
+                    rewritten: (false, false),
         });
         if let Some(s) = forged_seq {
             self.forged_seqs.push((id, s));
@@ -370,6 +372,8 @@ impl World {
             note: "unrelated",
             kept: None,
             replay_of_wire: None,
+                    dgram_len: 0,
+                    rewritten: (false, false),
         });
     }
 
